@@ -3,6 +3,7 @@ mod exec;
 mod partial;
 mod plan;
 mod pool;
+mod prepack;
 mod requests;
 mod synth;
 
@@ -10,6 +11,7 @@ fn main() {
     let cmd = std::env::args().nth(1).unwrap_or_default();
     match cmd.as_str() {
         "exec" => exec::main_exec(),
+        "exec-prepack" => prepack::main_prepack(),
         "partial" => partial::main_partial(),
         "partial-random" => partial::main_partial_random(),
         "plan" => plan::main_plan(),
